@@ -54,6 +54,8 @@ CANDIDATES = [
 HUNT_LANG = ('union.', 'concatenate.', 'remove_common_substring.', 'recreate.', 'insert.', 'return_next_state.', 'value.', 'new_', 'is_empty.', 'cluster.', 'rotate.',
              'flatten.', 'from_dfa.', 'fallback.')
 
+HUNT_SOUND = ('find_next_state.found_covering', 'find_next_state.only_widens', 'find_next_state.frame', 'add_new_state.', 'return_next_state.', 'insert.', 'classify.', 'caseconv.', 'class_gate.', 'grapheme')
+
 def hunt(prop, unit, label, failure, repo):
     """returns {'args': [...], 'output': str} for the first candidate that fails on the real library, else {'why': ...}."""
     if repo != '/repo':
@@ -72,10 +74,18 @@ def hunt(prop, unit, label, failure, repo):
         tried += 1
         if r['rc'] == 1: return {'args': args, 'output': r['output']}
         if r['rc'] < 0: return {'why': r['output']}
-    if label.startswith(HUNT_LANG):
+    if label.startswith(HUNT_LANG) and not label.startswith(HUNT_SOUND):
         r = replay_on_real_code(['hunt-lang', '--ignore-kf1'], timeout=600)
         if r['rc'] == 1:
             m = re.search(r'^failing input: (.*)$', r['output'], re.M)
             if m: return {'args': shlex.split(m.group(1)), 'output': r['output']}
         return {'why': 'no set of at most 3 words over {a,b}^<=3 (with the empty word) makes the real library violate soundness/exactness; %d directed candidates tried' % tried}
+    if label.startswith(HUNT_SOUND):
+        r = replay_on_real_code(['hunt-sound'], timeout=900)
+        if r['rc'] == 1:
+            m = re.search(r'^failing input: (.*)$', r['output'], re.M)
+            if m:
+                args = shlex.split(m.group(1))
+                return {'args': args, 'output': r['output'] + replay_on_real_code(args)['output']}
+        return {'why': 'no set of at most 2 words of length <= 2 over {a,B,1,space,-} under any of the 256 conversion/case/repetition flag subsets makes the real library miss a test case; %d directed candidates tried' % tried}
     return {'why': 'Verus gives no counterexample; %d directed candidate inputs of this obligation were replayed on the real library and none misbehaves' % tried}
